@@ -33,26 +33,32 @@ LevelAfter(o, k) ==
               [] OTHER -> prev
 
 StartLevel(o, k) == IF \E j \in 1..k : T.events[j].obj = o /\ T.events[j].op = "new" /\ T.events[j].ctor = "staged" THEN 1 ELSE 0
+(* What is promised exactly (exact = TRUE): constructors, stepping below the last level, and the two drivers on *)
+(* an object that has not been stepped.  Everything else (a driver on an already stepped object, stepping past   *)
+(* the last level) is outside what the interface promises: the code today yields the remaining levels and then  *)
+(* fails with an IndexError; the specification only demands that nothing but genuine levels is yielded, in      *)
+(* increasing order - any exception class, or a clean end, is accepted there.                                   *)
 Expected(k) ==
   LET e == T.events[k] before == LevelAfter(e.obj, k - 1) top == T.levels[e.inp]
       fresh == before = StartLevel(e.obj, k) IN
-  CASE e.op = "new" -> [enabled |-> TRUE, lv |-> <<>>, out |-> "ok"]
-    [] e.op = "new_bad" -> [enabled |-> TRUE, lv |-> <<>>, out |-> "exc:OSError"]
-    [] e.op = "resolve" -> [enabled |-> before < top, lv |-> <<before + 1>>, out |-> "ok"]
-    \* on an already stepped object the drivers run past the last level after yielding the rest
-    [] e.op = "resolve_iter" -> [enabled |-> before < top, lv |-> [i \in 1..(top - before) |-> before + i],
-                                out |-> IF fresh THEN "ok" ELSE "exc:IndexError"]
-    [] e.op = "resolve_all" -> [enabled |-> before < top, lv |-> IF fresh THEN <<top>> ELSE <<>>,
-                               out |-> IF fresh THEN "ok" ELSE "exc:IndexError"]
-    [] OTHER -> [enabled |-> before = top, lv |-> <<>>, out |-> "exc:IndexError"]
+  CASE e.op = "new" -> [enabled |-> TRUE, exact |-> TRUE, lv |-> <<>>, out |-> "ok"]
+    [] e.op = "new_bad" -> [enabled |-> TRUE, exact |-> TRUE, lv |-> <<>>, out |-> "error"]
+    [] e.op = "resolve" -> [enabled |-> TRUE, exact |-> before < top, lv |-> IF before < top THEN <<before + 1>> ELSE <<>>, out |-> "ok"]
+    [] e.op = "resolve_iter" -> [enabled |-> before < top, exact |-> fresh, lv |-> [i \in 1..(top - before) |-> before + i], out |-> "ok"]
+    [] e.op = "resolve_all" -> [enabled |-> before < top, exact |-> fresh, lv |-> <<top>>, out |-> "ok"]
+    [] OTHER -> [enabled |-> TRUE, exact |-> FALSE, lv |-> <<>>, out |-> "error"]
+
+Norm(o) == IF o = "ok" THEN "ok" ELSE "error"
+Increasing(s) == \A i, j \in DOMAIN s : i < j => s[i] < s[j]
 
 Ref(inp, lv) == {r[3] : r \in {x \in ToSet(T.reference) : x[1] = inp /\ x[2] = lv}}
 
 EventOK(k) ==
   LET e == T.events[k] x == Expected(k) IN
+  LET ys == [i \in DOMAIN e.yields |-> e.yields[i][1]] IN
   /\ x.enabled
-  /\ e.outcome = x.out
-  /\ [i \in DOMAIN e.yields |-> e.yields[i][1]] = x.lv
+  /\ IF x.exact THEN Norm(e.outcome) = x.out /\ ys = x.lv
+     ELSE Increasing(ys) /\ \A i \in DOMAIN ys : ys[i] \in 1..T.levels[e.inp]
 FunctionOK(k) ==
   LET e == T.events[k] IN
   \A i \in DOMAIN e.yields : Ref(e.inp, e.yields[i][1]) = {e.yields[i][2]}
